@@ -15,7 +15,7 @@
 //!   fsiz_dec hex                    -> OK n
 //!   fsiz_enc hex                    -> OK hex           (parse fSIZ payload, re-serialise)
 //!   name_str|name_bytes|name_lossy|name_path|name_fhed hex -> OK hex
-//!   ref_str hex                     -> OK hex
+//!   ref_str|ref_lossy|ref_path hex  -> OK hex
 //!   ty_bits hex4                    -> OK c p r s chk
 use libpna::verif_hooks as h;
 use libpna::{
@@ -257,6 +257,11 @@ fn run(c: &Case, oracle: &mut Vec<String>) -> String {
         }
         "name_str" => {
             let st = s(&hx(0));
+            // the delegating constructors (From<String>, From<&String>) must be the &str one
+            let a = EntryName::from(st.as_str());
+            if EntryName::from(st.clone()) != a || EntryName::from(&st) != a {
+                oracle.push("EntryName::from(String) / from(&String) differ from EntryName::from(&str)".into());
+            }
             show_res(guard(|| Ok(EntryName::from(st.as_str()))), |nm| hex(nm.as_str().as_bytes()))
         }
         "name_bytes" => {
@@ -272,6 +277,13 @@ fn run(c: &Case, oracle: &mut Vec<String>) -> String {
         }
         "name_path" => {
             let st = s(&hx(0));
+            {
+                let a = EntryName::try_from(std::path::Path::new(st.as_str())).ok();
+                let b = EntryName::try_from(std::ffi::OsStr::new(st.as_str())).ok();
+                if a != b {
+                    oracle.push("EntryName::try_from(&OsStr) differs from try_from(&Path)".into());
+                }
+            }
             show_res(
                 guard(|| {
                     EntryName::try_from(std::path::Path::new(st.as_str()))
@@ -294,7 +306,38 @@ fn run(c: &Case, oracle: &mut Vec<String>) -> String {
         }
         "ref_str" => {
             let st = s(&hx(0));
+            let a = EntryReference::from(st.as_str());
+            if EntryReference::from(st.clone()) != a || EntryReference::from(&st) != a {
+                oracle.push("EntryReference::from(String) / from(&String) differ from EntryReference::from(&str)".into());
+            }
             show_res(guard(|| Ok(EntryReference::from(st.as_str()))), |r| hex(r.as_str().as_bytes()))
+        }
+        // the std::path copy of the normalisation (from_path_lossy: what the CLI stores for link targets) and the
+        // fallible Path / OsStr constructors; same function of a UTF-8 string as ref_str
+        "ref_lossy" => {
+            let st = s(&hx(0));
+            let a = EntryReference::from_lossy(st.as_str());
+            if EntryReference::from_lossy(std::path::PathBuf::from(st.as_str())) != a {
+                oracle.push("EntryReference::from_lossy(PathBuf) differs from from_lossy(&str)".into());
+            }
+            show_res(guard(|| Ok(EntryReference::from_lossy(st.as_str()))), |r| hex(r.as_str().as_bytes()))
+        }
+        "ref_path" => {
+            let st = s(&hx(0));
+            {
+                let a = EntryReference::try_from(std::path::Path::new(st.as_str())).ok();
+                let b = EntryReference::try_from(std::ffi::OsStr::new(st.as_str())).ok();
+                if a != b {
+                    oracle.push("EntryReference::try_from(&OsStr) differs from try_from(&Path)".into());
+                }
+            }
+            show_res(
+                guard(|| {
+                    EntryReference::try_from(std::path::Path::new(st.as_str()))
+                        .map_err(|e| io::Error::new(io::ErrorKind::InvalidData, e))
+                }),
+                |r| hex(r.as_str().as_bytes()),
+            )
         }
         "ty_bits" => {
             let b = hx(0);
@@ -552,14 +595,14 @@ fn gen(prop: &str, tier: &str, seed: u64) -> Vec<String> {
     let maxlen = if thorough { 6 } else { if names_only { 5 } else { 3 } };
     for st in alphabet_strings(maxlen) {
         let hx = hex(&st);
-        for op in ["name_str", "name_bytes", "name_lossy", "name_path", "name_fhed", "ref_str"] {
+        for op in ["name_str", "name_bytes", "name_lossy", "name_path", "name_fhed", "ref_str", "ref_lossy", "ref_path"] {
             v.push(format!("{}\t{}", op, hx));
         }
     }
     for _ in 0..600 * scale {
         let p = path_like(&mut r);
         let hx = hex(&p);
-        for op in ["name_str", "name_bytes", "name_lossy", "name_path", "name_fhed", "ref_str"] {
+        for op in ["name_str", "name_bytes", "name_lossy", "name_path", "name_fhed", "ref_str", "ref_lossy", "ref_path"] {
             v.push(format!("{}\t{}", op, hx));
         }
         // invalid utf-8 only through the byte constructors
